@@ -50,7 +50,13 @@ def gen(rng, tier, i):
     for k in range(n):
         actor = rng.choice(tags)
         r = rng.random()
-        if r < 0.22:
+        if r < 0.04 and actor != 'u0':
+            # the blueprint is not loaded: its create() runs inside the clone_object() call and makes the cloner give up its euid
+            nt += 1; t = 't%d' % nt
+            f = rng.choice(FILES)
+            p.cycle(send(0, 'do dest %s;setcs as %s useteuid 0;uids\r\n' % (f, actor)))
+            op = 'uclone %s %s' % (f, t); tags.append(t)
+        elif r < 0.22:
             nt += 1; t = 't%d' % nt
             op = 'uclone %s %s' % (rng.choice(FILES), t); tags.append(t)
         elif r < 0.32:
@@ -108,8 +114,8 @@ def check(plan, res):
     vobjs = {}                           # virtual name -> model key of the object that answers to it
     stale = set()                        # keys whose model state is unknown after an anomalous creation (judged once)
 
-    def creation_rules(creator_key, ans):
-        cu, ce = model.get(creator_key, ['?', '?'])
+    def creation_rules(creator_key, ans, snap=None):
+        cu, ce = snap if snap is not None else model.get(creator_key, ['?', '?'])
         if ans in ('0', 'A'): name = 'NONAME'
         else: name = ans
         if name == cu: return [cu, '0']
@@ -127,9 +133,11 @@ def check(plan, res):
         elif w[0] == 'NAME' or (w[0] == 'DO' and len(w) > 2 and w[2] == 'name'):
             pass
         elif w[0] == 'UNEW':
-            pend = {'op': w[1], 'creator': w[2], 'file': w[3], 'tag': w[4], 'cf': [], 'created': []}
+            pend = {'op': w[1], 'creator': w[2], 'file': w[3], 'tag': w[4], 'cf': [], 'created': [], 'snaps': [], 'euid_at_start': (model.get(w[2]) or ['?', '?'])[1]}
         elif w[0] == 'CF' and pend is not None:
             pend['cf'].append((w[1], w[2][4:]))
+            # what the creator is at this very moment: a create() run earlier in the same operation may have changed it
+            pend['snaps'].append(list(model.get('M' if False else pend['creator']) or ['?', '?']))
         elif w[0] == 'UCREATE' and pend is not None:
             pend['created'].append(w[1])
         elif w[0] == 'UNEWDONE' and pend is not None:
@@ -140,7 +148,13 @@ def check(plan, res):
             if cst is None:
                 pend = None; continue     # actor does not exist (was never created): the as-op did nothing
             exempt = ck == 'M'
-            if cst[1] == '0' and not exempt:
+            if not exempt and pend['euid_at_start'] != '0' and not pend['file'].startswith('/v/'):      # (behind a virtual name the master is the creator)
+                # the creator lost its euid in the middle of the operation (the create() of the blueprint that the clone
+                # needed called back into it): what is created from then on is created by an object without euid
+                late = [c[0] for c, sn in zip(pend['cf'], pend['snaps']) if sn[1] == '0']
+                if late:
+                    bad('no-euid-creation', '%s had set its euid to 0 when the driver went on to create %s for it' % (ck, late), 'no-euid-creation/%s-after-seteuid-0' % pend['op'])
+            if pend['euid_at_start'] == '0' and not exempt:
                 # an object without euid must not create anything
                 if pend['cf'] or pend['created']:
                     bad('no-euid-creation', '%s with euid 0 started creating %s (creator_file asked for %s, create ran in %s)' % (ck, pend['file'], [c[0] for c in pend['cf']], pend['created']),
@@ -157,7 +171,7 @@ def check(plan, res):
             else:
                 # every creator_file question is one object being created, in order; apply the rules
                 virt = pend['file'].startswith('/v/')
-                for (name, ans) in pend['cf']:
+                for (name, ans), snap in zip(pend['cf'], pend['snaps']):
                     base = name.split('#')[0]
                     key = pend['tag'] if ('#' in name and base == pend['file']) else name
                     if virt and base == '/uobj':
@@ -171,7 +185,7 @@ def check(plan, res):
                         continue
                     if ans == 'E':
                         stale.add(key); continue
-                    model[key] = creation_rules(ck, ans)
+                    model[key] = creation_rules(ck, ans, snap)
                     stale.discard(key)       # created for good now: an earlier failed attempt no longer matters
                     fname[name] = key
                 if pend['op'] == 'uload' and ok:
